@@ -25,6 +25,18 @@ ENTRIES = {
  "C06": dict(cat="exploration", engine="sweep", tech=TECH_SWEEP + " (differential: accelerated search vs per-edge scan)",
   text="Every vertex sequence over the 4x4 lattice up to the length bound and 105 structured large polylines x a grid of origins x 14 directions (axis-parallel, zero components, negative parameters, near-parallel): the QBVH-accelerated search must equal sort+dedup of the per-edge routine over every edge and an independent closed form; spanning ray, largest intersection, farthest vertex and surface-point intersections are checked against the same scan.",
   note="A mismatch is gray only for a line grazing a vertex (both neighbours on one side) or touching an end vertex; transversal crossings through a vertex must be reported."),
+ "C07": dict(cat="model_checking", engine="bfs, sweep", tech="explicit enumeration of all set_params histories (<= 3 over a 5-vector alphabet) of the real private least-squares problems through cfg hooks, history-vs-fresh-problem oracle; plus exhaustive sweep of a stated displacement basin",
+  text="Every set_params history of length <= 3 of the private 2D points-to-curve and 3D points-to-mesh problems (reached through feature-guarded observers) must give observations identical to a fresh problem holding only the last parameters, with residuals recomputed by brute force; every displacement of a stated basin x initial guess x sample density x DistMode on 3 reference curves and 2 reference meshes must be recovered to 1e-6, every Ok result (also from out-of-basin starts) must report honest residuals and a non-increased sum of squares.",
+  note="Basin is stated and small (5% of the smallest feature, 10 deg 2D / 2 deg 3D); LM convergence outside it is not claimed. Plane-mode residuals may use any minimising face."),
+ "C08": dict(cat="exploration", engine="sweep", tech=TECH_SWEEP + " (closed-form and central-finite-difference oracles)",
+  text="Every Euler triple of an 18-value alphabet (incl. pitch within 1e-9..1e-3 of +-pi/2) x translations x rotation centres up to 1e3 for the rotation-centred parameter objects (3 updates each against the independent formula), Euler derivative matrices, isometry<->parameter round trips, every entry of the four analytic Jacobians against central finite differences on lattice probes, ParamHandler layouts.",
+  note="Jacobian tolerance 1e-5*lever (h=1e-6), residual kinks skipped; reproduction tolerance 1e-9*(1+|t|+|rc|)."),
+ "C09": dict(cat="exploration", engine="sweep, bfs", tech=TECH_SWEEP + "; CircleFit: all set_params histories <= 3 vs fresh problem",
+  text="Polynomial fits K=2..6: coefficient vectors from a 5-value alphabet x 5 abscissa sets (asymmetric, one-sided, clustered, offset, symmetric) x sizes x weight patterns for exact recovery, arbitrary ordinates for the orthogonality (normal-equation) clause, best_fit_line vs degree 1; circle fits over centres x radii x arc extents x guesses x modes, stationarity on perturbed data, CircleFit history independence, every lattice triple for the three-point circle, seeded RANSAC on contaminated sets.",
+  note="Recovery tolerance scales with the condition number of the normal matrix (explicit inverse); cond > 1e8 skipped and counted; the three-point collinearity band |det| < 1e-3 is gray when rejected."),
+ "C11": dict(cat="exploration", engine="sweep", tech=TECH_SWEEP,
+  text="Circle pairs in all six regimes x radii x 13 directions x offsets; tangent points from 6 distance ratios; outer tangents; lines/segments through a grid of origins; lattice curves against circles; arcs over centres x radii x 30 start angles (k*pi/2 +- 1e-9) x 12 signed sweeps; three-point arcs from every lattice triple at 3 scales: every defining constraint checked (on both objects, counts, perpendicularity, order, start/through/end, length/fraction agreement, cached box contains and touches).",
+  note="Recorded finding: equal-radius outer tangents come (right, left), pinned by a repository test. Exact tangency demanded only along exactly representable directions."),
  "C16": dict(cat="model_checking", engine="bfs, sweep", tech=TECH_BFS + "; plus " + TECH_SWEEP,
   text="State-space search of SurfaceDeviationSet (all push histories <= 5 over a tie-producing alphabet from default() and new(v)) and PointCloud (append/merge/select histories, rejected operations must change nothing) against Vec models, with from-scratch comparison on every state; exhaustive sweeps of curve and mesh deviations (sign, magnitude, reconstruction), directed distances and every small tolerance table.",
   note="Deviation sign judged only where the offset has a non-zero normal component; plane-mode value at mesh edges may use any adjacent face (C03 finding)."),
@@ -34,6 +46,9 @@ ENTRIES = {
  "C18": dict(cat="exploration", engine="sweep", tech=TECH_SWEEP,
   text="Complete enumeration of a 111-value angle alphabet (multiples of pi/4 with +-1 ulp neighbours, tiny, huge): every angle, every ordered pair x direction, every (start, extent) interval x every test angle, every pair of intervals; every ordered pair of 56 vectors; every scalar interval and pair over bounds incl. equal and infinite ones.",
   note="Direction equality on sin/cos within 8 ulp*(1+|a|); interval membership gray within 1e-9 of an end except the stored ends themselves."),
+ "C19": dict(cat="exploration", engine="sweep", tech=TECH_SWEEP,
+  text="Every ordered pair of the 124 non-zero vectors of {-2..2}^3 x 6 two-vector frame constructors x origins; basis-to-isometry builders over every exact signed-permutation rotation (all exact half turns) and oblique half turns; principal axes of every multiset of 4-5 points of the 3x3x3 lattice (generic, planar, collinear, coincident) x 5 weightings with centre, orthonormality, order, variance, rank, round-trip, equivariance and weight-scaling clauses; planes from every lattice triple.",
+  note="Axes compared per axis up to sign where singular values are separated; weighted singular values carry no variance meaning."),
 }
 
 NOT_YET = "check under construction (will be claimed once its exhaustive exploration is implemented)"
